@@ -29,8 +29,8 @@ CHECKS = {
          "Every execution drives a real Server over a scripted listener/transport poll by poll; after every poll-to-quiescence each connection's output and the service's call log are compared with the model (one reply or error per non-oneway call, nothing for oneway, in order, only on that connection); the server future must stay pending and keep accepting.",
          "Trusted: the test service's replies depend only on the call. Bounded: <=3/4 connections, <=5/6 calls in total, <=8/9 events, bursts from an 8-entry alphabet, <=2/3 deviations.", "4 C08"),
  "C09": ("zcheck", "stateless model checking of Server::run with a fault event (8 kinds) enabled at every position of every history",
-         "The C08 space plus fault events on any connection at any point: garbage frame, truncated frame + EOF, EOF mid-burst, EOF, read error, write error, unknown method, wrong parameter types (also while a stream is open). Healthy connections must match their model exactly, the server must keep running and serve a fresh client afterwards.",
-         "Faulty connections are only prefix-checked (or unconstrained after an undecodable frame). Oversized frames are covered by C17. Bounded: <=3/4 connections, <=4/5 calls, <=8/9 events, <=2 faults.", "4 C09"),
+         "The C08 space plus fault events on any connection at any point: garbage frame, truncated frame + EOF, EOF mid-burst, EOF, read error, write error, unknown method, wrong parameter types, an unterminated frame beyond the buffer limit (also while a stream is open). Healthy connections must match their model exactly, the server must keep running and serve a fresh client afterwards.",
+         "Faulty connections are only prefix-checked (or unconstrained after an undecodable frame). Built with the buffer limit lowered to 4096 bytes (hook zlink_verif_small_buf) so that an oversized frame is an affordable fault. Bounded: <=3/4 connections, <=4/5 calls, <=8/9 events, <=2 faults.", "4 C09"),
  "C10": ("zcheck", "stateless model checking of Server::run with streaming calls: stream items and stream ends are driver events interleaved with client traffic",
          "Scripts mixing Watch calls (0..2 items, ending or left open) with plain/error calls pipelined before and behind them on <=2/3 connections, all interleavings of item production, stream end, byte arrival and other clients' calls; a client becoming unwritable at any point. Items in order with the service's continues flag, calls behind the stream answered after it ends, other clients unaffected, only the unwritable client's subscription dropped.",
          "Bounded: <=2/3 connections, <=4/5 calls, <=8 events, streams of <=2 items, <=1/2 deviations (cuts, short reads, delayed polls).", "4 C10"),
